@@ -188,6 +188,15 @@ func (sp *shParts) build() []byte {
 	return hsMsg(sp.head[0], body)
 }
 
+// setSessionID replaces the legacy_session_id of the parsed hello.
+func (sp *shParts) setSessionID(id []byte) {
+	p := 4 + 2 + 32
+	old := int(sp.head[p])
+	tail := append([]byte(nil), sp.head[p+1+old:]...)
+	sp.head = append(append(append([]byte(nil), sp.head[:p]...), byte(len(id))), id...)
+	sp.head = append(sp.head, tail...)
+}
+
 func (sp *shParts) find(t uint16) *shExt {
 	for i := range sp.exts {
 		if sp.exts[i].typ == t {
